@@ -27,6 +27,7 @@ double nondet_double(void); uint64_t nondet_u64(void);
 static inline _Bool (ParseFloatingNormalFast)(uint64_t *raw, int exp10, uint64_t man, int sgn) {
   __CPROVER_assert(man != 0, "C04.pre.normalfast.man: ParseFloatingNormalFast computes LeadingZeroes(man) and man << lz: the mantissa must be non-zero");
   __CPROVER_assert(exp10 + 348 >= 0 && exp10 + 348 <= 696, "C04.pre.normalfast.idx: kPow10M128Tab index exp10 + 348 in range");
+  __CPROVER_assert(exp10 > -308 + 1 && exp10 < 308 - 20, "C04.pre.normalfast.range: ParseFloatingNormalFast is entered only with -307 < exp10 < 288 (so that its result is a normal double)");
   conv.calls++; conv.man = man; conv.exp10 = exp10; conv.sgn = sgn; conv.trunc = 0; conv.which = 1;
   if (nondet_bool()) return 0;
   *raw = nondet_u64(); return 1;
@@ -176,4 +177,17 @@ void h_parseFloatingFast(void) {
   (void)Parser_parseFloatingFast(&P, &d, e, m);
   CANARY();
 }
+#endif
+
+#ifdef UNIT_EiselLemire
+/* ---- AtofEiselLemire64: structural contract (normal finite result, defined shifts, table index), NOT its rounding ---- */
+#include "gen/avx2.LeadingZeroes.inc"
+#include "gen/kPow10M128Tab.inc"
+#include "gen/MulU64.inc"
+#include "gen/AtofEiselLemire64.inc"
+#undef ParseFloatingNormalFast
+#define ParseFloatingNormalFast ParseFloatingNormalFast_real
+#include "gen/ParseFloatingNormalFast.inc"
+void h_ParseFloatingNormalFast(void) { uint64_t r, m; int e, s; (void)ParseFloatingNormalFast_real(&r, e, m, s); CANARY(); }
+void h_AtofEiselLemire64(void) { uint64_t m; int e, s; double d; (void)AtofEiselLemire64(m, e, s, &d); CANARY(); }
 #endif
